@@ -167,32 +167,32 @@ theorem PubVars.lower {vs : List (Nat × Nat)} {e e' : Env} (h : PubVars vs e) (
   fun xv hxv => envLe_pub hle xv.1 xv.2 (h xv hxv)
 
 /-- `s[1] ^= d; P(r)`, keeping the listed public variables -/
-theorem xp_step {g : AGeo} {M : Array Block} {nv : Nat} {env : Env} {st : St} {s : W4} {kws : List UInt32} (ai : AI g M nv env st s kws) (vs : List (Nat × Nat)) (pv : PubVars vs env)
-    (t x : Nat) (Ed er : Expr) (d : UInt32) (r : Nat) (ht : 1 ≤ t ∧ t < nv) (hx : 1 ≤ x ∧ x < nv) (htx : t ≠ x) (hvs : ∀ xv ∈ vs, xv.1 ≠ t ∧ xv.1 ≠ x)
+theorem xp_step {g : AGeo} {M : Array Block} {nv : Nat} {env : Env} {st : St} {s : W4} {kws : List UInt32} {sv : Nat} (ai : AI g M nv env st s kws sv) (vs : List (Nat × Nat)) (pv : PubVars vs env)
+    (t x : Nat) (Ed er : Expr) (d : UInt32) (r : Nat) (ht : t ≠ sv ∧ t < nv) (hx : x ≠ sv ∧ x < nv) (htx : t ≠ x) (hvs : ∀ xv ∈ vs, xv.1 ≠ t ∧ xv.1 ≠ x)
     (hEd : ∀ e' : Env, PubVars vs e' → EvalD e' Ed d.toNat) (her : ∀ e' : Env, evalE e' er = .ok (r, .pub)) (hr : r < 4294967296) (more : Stmt)
     {Q : Sig → Env → St → Prop}
-    (hQ : ∀ e' s', AI g M nv e' s' (g.P kws r (addDomain s d)) kws → PubVars vs e' → RunsTo g.prog more e' s' Q) :
-    RunsTo g.prog (.seq (xorPub 1 t x Ed) (.seq (.call none g.pidx [.var 0, er]) more)) env st Q := by
-  refine runs_seq (Q := fun e' s' => AI g M nv e' s' (addDomain s d) kws ∧ PubVars vs e') ?_ ?_
+    (hQ : ∀ e' s', AI g M nv e' s' (g.P kws r (addDomain s d)) kws sv → PubVars vs e' → RunsTo g.prog more e' s' Q) :
+    RunsTo g.prog (.seq (xorPub 1 t x Ed sv) (.seq (.call none g.pidx [.var sv, er]) more)) env st Q := by
+  refine runs_seq (Q := fun e' s' => AI g M nv e' s' (addDomain s d) kws sv ∧ PubVars vs e') ?_ ?_
   · refine ai_xor ai 1 t x _ d (by decide) ht hx htx ?_ ?_
     · intro e' hfr
       exact hEd e' (pv.frame (fun xv hxv => hfr xv.1 (hvs xv hxv).1 (hvs xv hxv).2))
     · intro e' s' _ hfr ai'
       exact ⟨rfl, ai', pv.frame (fun xv hxv => hfr xv.1 (hvs xv hxv).1 (hvs xv hxv).2)⟩
   · intro e1 s1 ⟨ai1, pv1⟩
-    refine runs_seq (Q := fun e' s' => AI g M nv e' s' (g.P kws r (addDomain s d)) kws ∧ PubVars vs e') ?_ (fun e' s' h => hQ e' s' h.1 h.2)
+    refine runs_seq (Q := fun e' s' => AI g M nv e' s' (g.P kws r (addDomain s d)) kws sv ∧ PubVars vs e') ?_ (fun e' s' h => hQ e' s' h.1 h.2)
     refine ai_perm ai1 er r hr (her e1) ?_
     intro e' s' hle ai'
     exact ⟨rfl, ai', pv1.lower hle⟩
 
 /-- `s[3] ^= word(data)`, keeping the listed public variables (variable 1 is the data pointer) -/
-theorem xd_step {g : AGeo} {M : Array Block} (dg : DGeo g M) {nv : Nat} {env : Env} {st : St} {s : W4} {kws : List UInt32} (ai : AI g M nv env st s kws) (vs : List (Nat × Nat)) (pv : PubVars vs env)
-    (off : Nat) (dat : Bytes) (hd : BytesV dg.XD off dat) (he1 : env[1]? = some (mkPtr dg.bd (dg.based + off), .pub))
-    (t x : Nat) (loads : List (Nat × Nat)) (E : Expr) (c : UInt32) (ht : 2 ≤ t ∧ t < nv) (hx : 2 ≤ x ∧ x < nv) (htx : t ≠ x) (hl0 : loads ≠ [])
-    (hall : ∀ yo ∈ loads, 2 ≤ yo.1 ∧ yo.1 < nv ∧ yo.1 ≠ t ∧ yo.1 ≠ x ∧ yo.2 < dat.length) (hnd : (loads.map Prod.fst).Nodup)
+theorem xd_step {g : AGeo} {M : Array Block} (dg : DGeo g M) {nv : Nat} {env : Env} {st : St} {s : W4} {kws : List UInt32} {sv : Nat} (ai : AI g M nv env st s kws sv) (vs : List (Nat × Nat)) (pv : PubVars vs env)
+    (off : Nat) (dat : Bytes) (hd : BytesV dg.XD off dat) {dv : Nat} (he1 : env[dv]? = some (mkPtr dg.bd (dg.based + off), .pub))
+    (t x : Nat) (loads : List (Nat × Nat)) (E : Expr) (c : UInt32) (ht : t ≠ sv ∧ t ≠ dv ∧ t < nv) (hx : x ≠ sv ∧ x ≠ dv ∧ x < nv) (htx : t ≠ x) (hl0 : loads ≠ [])
+    (hall : ∀ yo ∈ loads, yo.1 ≠ sv ∧ yo.1 ≠ dv ∧ yo.1 < nv ∧ yo.1 ≠ t ∧ yo.1 ≠ x ∧ yo.2 < dat.length) (hnd : (loads.map Prod.fst).Nodup)
     (hvs : ∀ xv ∈ vs, xv.1 ≠ t ∧ xv.1 ≠ x ∧ xv.1 ∉ loads.map Prod.fst)
     (hE : ∀ e' : Env, (∀ yo ∈ loads, EnvHas e' yo.1 (dat.getD yo.2 0).toNat) → EvalD e' E c.toNat) :
-    RunsTo g.prog (xorData 3 t x loads E) env st (fun sig e' s' => sig = .normal ∧ AI g M nv e' s' (absorbW s c) kws ∧ PubVars vs e') := by
+    RunsTo g.prog (xorData 3 t x loads E sv dv) env st (fun sig e' s' => sig = .normal ∧ AI g M nv e' s' (absorbW s c) kws sv ∧ PubVars vs e') := by
   refine ai_xor_data dg ai off dat hd he1 3 t x loads E c (by decide) ht hx htx hl0 hall hnd hE ?_
   intro e' s' _ hfr ai'
   exact ⟨rfl, ai', pv.frame (fun xv hxv => hfr xv.1 (hvs xv hxv).1 (hvs xv hxv).2.1 (hvs xv hxv).2.2)⟩
@@ -299,11 +299,11 @@ theorem evalD_byteVal {e : Env} {w : Nat} {v : UInt32} (hw : EnvHas e w v.toNat)
     simpa [byteOf_toNat, Nat.shiftRight_eq_div_pow] using this
 
 /-- one byte written to a block other than the state object: the ghost memory gets the same byte -/
-theorem out_store {g : AGeo} {M : Array Block} {nv : Nat} {env : Env} {st : St} {s : W4} {kws : List UInt32} (ai : AI g M nv env st s kws)
+theorem out_store {g : AGeo} {M : Array Block} {nv : Nat} {env : Env} {st : St} {s : W4} {kws : List UInt32} {sv : Nat} (ai : AI g M nv env st s kws sv)
     (bo baseo q : Nat) (XO : Array LByte) (hne : bo ≠ g.bs) (hMo : M[bo]? = some ⟨XO, baseo⟩) (hlt : baseo + XO.size < ptrBase) (hq : q < XO.size)
     (ae ve : Expr) (b : UInt8) (hae : evalE env ae = .ok (mkPtr bo (baseo + q), .pub)) (hve : EvalD env ve b.toNat)
     {Q : Sig → Env → St → Prop}
-    (hQ : ∀ s' l, l ≠ Lab.undef → AI g (setBlock M bo (XO.setIfInBounds q (b, l))) nv env s' s kws → Q .normal env s') :
+    (hQ : ∀ s' l, l ≠ Lab.undef → AI g (setBlock M bo (XO.setIfInBounds q (b, l))) nv env s' s kws sv → Q .normal env s') :
     RunsTo g.prog (.store .u8 ae ve) env st Q := by
   have hrel := ai.oth bo hne
   rw [hMo] at hrel
@@ -344,23 +344,27 @@ theorem evalE_addrO {env : Env} (bo base c : Nat) (hbo30 : bo < 2 ^ 30) (hlt : b
       Ty.modulus, Lab.join_pub_pub]
     rw [ptr_off bo base c hbo30 hlt]
 
-/-- `p = out + c; *p = (uint8_t)(w >> 8j)` where variable 1 is the output pointer -/
-theorem out_byteStmt {g : AGeo} {M : Array Block} {nv : Nat} {env : Env} {st : St} {s : W4} {kws : List UInt32} (ai : AI g M nv env st s kws)
+/-- `byteStmt` with the output pointer in variable `ov` -/
+def byteStmtV (ov t q w j : Nat) : Stmt := seqs [.assign t (addrD q ov), .store .u8 (.var t) (byteVal w j)]
+theorem byteStmt_eq (t q w j : Nat) : byteStmt t q w j = byteStmtV 1 t q w j := rfl
+
+/-- `p = out + c; *p = (uint8_t)(w >> 8j)` where variable `ov` is the output pointer -/
+theorem out_byteStmt {g : AGeo} {M : Array Block} {nv : Nat} {env : Env} {st : St} {s : W4} {kws : List UInt32} {sv : Nat} (ai : AI g M nv env st s kws sv)
     (bo baseo oo c : Nat) (XO : Array LByte) (hne : bo ≠ g.bs) (hbo30 : bo < 2 ^ 30) (hMo : M[bo]? = some ⟨XO, baseo⟩) (hlt : baseo + XO.size < ptrBase)
-    (hc : oo + c < XO.size) (he1 : env[1]? = some (mkPtr bo (baseo + oo), .pub))
-    (t w j : Nat) (v : UInt32) (ht : 2 ≤ t ∧ t < nv) (htw : t ≠ w) (hj : j < 4) (hw : EnvHas env w v.toNat)
+    (hc : oo + c < XO.size) {ov : Nat} (he1 : env[ov]? = some (mkPtr bo (baseo + oo), .pub))
+    (t w j : Nat) (v : UInt32) (ht : t ≠ sv ∧ t ≠ ov ∧ t < nv) (htw : t ≠ w) (hj : j < 4) (hw : EnvHas env w v.toNat)
     {Q : Sig → Env → St → Prop}
     (hQ : ∀ e' s' l, l ≠ Lab.undef → (∀ y, y ≠ t → e'[y]? = env[y]?) → e'.size = nv →
-      AI g (setBlock M bo (XO.setIfInBounds (oo + c) (byteOf v.toNat j, l))) nv e' s' s kws → Q .normal e' s') :
-    RunsTo g.prog (byteStmt t c w j) env st Q := by
+      AI g (setBlock M bo (XO.setIfInBounds (oo + c) (byteOf v.toNat j, l))) nv e' s' s kws sv → Q .normal e' s') :
+    RunsTo g.prog (byteStmtV ov t c w j) env st Q := by
   have hes := ai.esz
-  unfold byteStmt
+  unfold byteStmtV
   simp only [seqs]
   have fr : ∀ y, y ≠ t → (setVar env t (mkPtr bo (baseo + oo + c), Lab.pub))[y]? = env[y]? := fun y hy => get_set_ne _ _ _ _ (fun e => hy e.symm)
-  have ai1 : AI g M nv (setVar env t (mkPtr bo (baseo + oo + c), Lab.pub)) st s kws :=
-    ⟨by rw [size_setVar]; exact hes, by rw [fr 0 (by omega)]; exact ai.e0, ai.klen, ai.obj, ai.oth, ai.msz, ai.ent⟩
+  have ai1 : AI g M nv (setVar env t (mkPtr bo (baseo + oo + c), Lab.pub)) st s kws sv :=
+    ⟨by rw [size_setVar]; exact hes, by rw [fr sv (fun e => ht.1 e.symm)]; exact ai.e0, ai.klen, ai.obj, ai.oth, ai.msz, ai.ent⟩
   refine runs_seq (Q := fun e s' => e = setVar env t (mkPtr bo (baseo + oo + c), Lab.pub) ∧ s' = st)
-    (runs_assign _ (evalE_addrO bo (baseo + oo) c hbo30 (by omega) he1) ⟨rfl, rfl, rfl⟩) ?_
+    (runs_assign _ (evalE_addrD bo (baseo + oo) c hbo30 (by omega) he1) ⟨rfl, rfl, rfl⟩) ?_
   intro e s' ⟨he, hs⟩; rw [he, hs]
   have hw' : EnvHas (setVar env t (mkPtr bo (baseo + oo + c), Lab.pub)) w v.toNat := by
     obtain ⟨l, h1, h2⟩ := hw
@@ -371,29 +375,29 @@ theorem out_byteStmt {g : AGeo} {M : Array Block} {nv : Nat} {env : Env} {st : S
   exact hQ _ s'' l hl fr (by rw [size_setVar]; exact hes) ai'
 
 /-- four consecutive output bytes: a little-endian word -/
-theorem out_word {g : AGeo} {M : Array Block} {nv : Nat} {env : Env} {st : St} {s : W4} {kws : List UInt32} (ai : AI g M nv env st s kws)
+theorem out_word {g : AGeo} {M : Array Block} {nv : Nat} {env : Env} {st : St} {s : W4} {kws : List UInt32} {sv : Nat} (ai : AI g M nv env st s kws sv)
     (bo baseo oo c : Nat) (XO : Array LByte) (hne : bo ≠ g.bs) (hbo30 : bo < 2 ^ 30) (hMo : M[bo]? = some ⟨XO, baseo⟩) (hlt : baseo + XO.size < ptrBase)
-    (hc : oo + c + 4 ≤ XO.size) (he1 : env[1]? = some (mkPtr bo (baseo + oo), .pub))
-    (t0 t1 t2 t3 w : Nat) (v : UInt32) (ht : 2 ≤ t0 ∧ t0 < nv ∧ 2 ≤ t1 ∧ t1 < nv ∧ 2 ≤ t2 ∧ t2 < nv ∧ 2 ≤ t3 ∧ t3 < nv)
+    (hc : oo + c + 4 ≤ XO.size) {ov : Nat} (he1 : env[ov]? = some (mkPtr bo (baseo + oo), .pub))
+    (t0 t1 t2 t3 w : Nat) (v : UInt32) (ht : (t0 ≠ sv ∧ t0 ≠ ov ∧ t0 < nv) ∧ (t1 ≠ sv ∧ t1 ≠ ov ∧ t1 < nv) ∧ (t2 ≠ sv ∧ t2 ≠ ov ∧ t2 < nv) ∧ (t3 ≠ sv ∧ t3 ≠ ov ∧ t3 < nv))
     (htw : t0 ≠ w ∧ t1 ≠ w ∧ t2 ≠ w ∧ t3 ≠ w) (hw : EnvHas env w v.toNat) :
-    RunsTo g.prog (.seq (byteStmt t0 c w 0) (.seq (byteStmt t1 (c + 1) w 1) (.seq (byteStmt t2 (c + 2) w 2) (byteStmt t3 (c + 3) w 3)))) env st
+    RunsTo g.prog (.seq (byteStmtV ov t0 c w 0) (.seq (byteStmtV ov t1 (c + 1) w 1) (.seq (byteStmtV ov t2 (c + 2) w 2) (byteStmtV ov t3 (c + 3) w 3)))) env st
       (fun sig e' s' => sig = .normal ∧ e'.size = nv ∧ (∀ y, y ≠ t0 → y ≠ t1 → y ≠ t2 → y ≠ t3 → e'[y]? = env[y]?) ∧
-        ∃ XO', AI g (setBlock M bo XO') nv e' s' s kws ∧ XO'.size = XO.size ∧ (∀ j, j < 4 → BV XO' (oo + c + j) (byteOf v.toNat j)) ∧
+        ∃ XO', AI g (setBlock M bo XO') nv e' s' s kws sv ∧ XO'.size = XO.size ∧ (∀ j, j < 4 → BV XO' (oo + c + j) (byteOf v.toNat j)) ∧
           (∀ p, (p < oo + c ∨ oo + c + 4 ≤ p) → XO'[p]? = XO[p]?)) := by
   have keepw : ∀ (e e' : Env) (t : Nat), t ≠ w → (∀ y, y ≠ t → e'[y]? = e[y]?) → EnvHas e w v.toNat → EnvHas e' w v.toNat := by
     intro e e' t htw hfr ⟨l, h1, h2⟩
     exact ⟨l, by rw [hfr w (fun e => htw e.symm)]; exact h1, h2⟩
   refine runs_seq (Q := fun e1 s1 => ∃ l0, l0 ≠ Lab.undef ∧ (∀ y, y ≠ t0 → e1[y]? = env[y]?) ∧ e1.size = nv ∧
-      AI g (setBlock M bo (XO.setIfInBounds (oo + c) (byteOf v.toNat 0, l0))) nv e1 s1 s kws) ?_ ?_
-  · exact out_byteStmt ai bo baseo oo c XO hne hbo30 hMo hlt (by omega) he1 t0 w 0 v (by omega) htw.1 (by decide) hw
+      AI g (setBlock M bo (XO.setIfInBounds (oo + c) (byteOf v.toNat 0, l0))) nv e1 s1 s kws sv) ?_ ?_
+  · exact out_byteStmt ai bo baseo oo c XO hne hbo30 hMo hlt (by omega) he1 t0 w 0 v ht.1 htw.1 (by decide) hw
       (fun e' s' l hl hfr hsz ai' => ⟨rfl, l, hl, hfr, hsz, ai'⟩)
   · intro e1 s1 ⟨l0, hl0, fr1, sz1, ai1⟩
     let X1 := XO.setIfInBounds (oo + c) (byteOf v.toNat 0, l0)
     have hM1 : (setBlock M bo X1)[bo]? = some ⟨X1, baseo⟩ := by rw [getElem?_setBlock', if_pos rfl, hMo]; rfl
     have z1 : X1.size = XO.size := by simp only [X1, Array.size_setIfInBounds]
     refine runs_seq (Q := fun e2 s2 => ∃ l1, l1 ≠ Lab.undef ∧ (∀ y, y ≠ t1 → e2[y]? = e1[y]?) ∧ e2.size = nv ∧
-        AI g (setBlock M bo (X1.setIfInBounds (oo + (c + 1)) (byteOf v.toNat 1, l1))) nv e2 s2 s kws) ?_ ?_
-    · refine out_byteStmt ai1 bo baseo oo (c + 1) X1 hne hbo30 hM1 (by rw [z1]; exact hlt) (by rw [z1]; omega) (by rw [fr1 1 (by omega)]; exact he1) t1 w 1 v (by omega) htw.2.1
+        AI g (setBlock M bo (X1.setIfInBounds (oo + (c + 1)) (byteOf v.toNat 1, l1))) nv e2 s2 s kws sv) ?_ ?_
+    · refine out_byteStmt ai1 bo baseo oo (c + 1) X1 hne hbo30 hM1 (by rw [z1]; exact hlt) (by rw [z1]; omega) (by rw [fr1 ov (fun e => ht.1.2.1 e.symm)]; exact he1) t1 w 1 v ht.2.1 htw.2.1
         (by decide) (keepw env e1 t0 htw.1 fr1 hw) ?_
       intro e' s' l hl hfr hsz ai'
       rw [setBlock_setBlock M bo _ _ ⟨XO, baseo⟩ hMo] at ai'
@@ -403,9 +407,9 @@ theorem out_word {g : AGeo} {M : Array Block} {nv : Nat} {env : Env} {st : St} {
       have hM2 : (setBlock M bo X2)[bo]? = some ⟨X2, baseo⟩ := by rw [getElem?_setBlock', if_pos rfl, hMo]; rfl
       have z2 : X2.size = XO.size := by simp only [X2, Array.size_setIfInBounds]; exact z1
       refine runs_seq (Q := fun e3 s3 => ∃ l2, l2 ≠ Lab.undef ∧ (∀ y, y ≠ t2 → e3[y]? = e2[y]?) ∧ e3.size = nv ∧
-          AI g (setBlock M bo (X2.setIfInBounds (oo + (c + 2)) (byteOf v.toNat 2, l2))) nv e3 s3 s kws) ?_ ?_
+          AI g (setBlock M bo (X2.setIfInBounds (oo + (c + 2)) (byteOf v.toNat 2, l2))) nv e3 s3 s kws sv) ?_ ?_
       · refine out_byteStmt ai2 bo baseo oo (c + 2) X2 hne hbo30 hM2 (by rw [z2]; exact hlt) (by rw [z2]; omega)
-          (by rw [fr2 1 (by omega), fr1 1 (by omega)]; exact he1) t2 w 2 v (by omega) htw.2.2.1 (by decide)
+          (by rw [fr2 ov (fun e => ht.2.1.2.1 e.symm), fr1 ov (fun e => ht.1.2.1 e.symm)]; exact he1) t2 w 2 v ht.2.2.1 htw.2.2.1 (by decide)
           (keepw e1 e2 t1 htw.2.1 fr2 (keepw env e1 t0 htw.1 fr1 hw)) ?_
         intro e' s' l hl hfr hsz ai'
         rw [setBlock_setBlock M bo _ _ ⟨XO, baseo⟩ hMo] at ai'
@@ -415,7 +419,7 @@ theorem out_word {g : AGeo} {M : Array Block} {nv : Nat} {env : Env} {st : St} {
         have hM3 : (setBlock M bo X3)[bo]? = some ⟨X3, baseo⟩ := by rw [getElem?_setBlock', if_pos rfl, hMo]; rfl
         have z3 : X3.size = XO.size := by simp only [X3, Array.size_setIfInBounds]; exact z2
         refine out_byteStmt ai3 bo baseo oo (c + 3) X3 hne hbo30 hM3 (by rw [z3]; exact hlt) (by rw [z3]; omega)
-          (by rw [fr3 1 (by omega), fr2 1 (by omega), fr1 1 (by omega)]; exact he1) t3 w 3 v (by omega) htw.2.2.2 (by decide)
+          (by rw [fr3 ov (fun e => ht.2.2.1.2.1 e.symm), fr2 ov (fun e => ht.2.1.2.1 e.symm), fr1 ov (fun e => ht.1.2.1 e.symm)]; exact he1) t3 w 3 v ht.2.2.2 htw.2.2.2 (by decide)
           (keepw e2 e3 t2 htw.2.2.1 fr3 (keepw e1 e2 t1 htw.2.1 fr2 (keepw env e1 t0 htw.1 fr1 hw))) ?_
         intro e' s' l3 hl3 hfr hsz ai'
         rw [setBlock_setBlock M bo _ _ ⟨XO, baseo⟩ hMo] at ai'
